@@ -71,4 +71,11 @@ ReplaceSub(s, pat, rep) ==
        THEN rep \o ReplaceSub(SubSeq(s, Len(pat) + 1, Len(s)), pat, rep)
        ELSE <<Head(s)>> \o ReplaceSub(Tail(s), pat, rep)
 
+\* UTF-8 encoding of a sequence of code points (up to U+FFFF)
+Utf8One(c) ==
+  IF c < 128 THEN <<c>>
+  ELSE IF c < 2048 THEN <<192 + (c \div 64), 128 + (c % 64)>>
+  ELSE <<224 + (c \div 4096), 128 + ((c \div 64) % 64), 128 + (c % 64)>>
+Utf8(cps) == Flatten([i \in DOMAIN cps |-> Utf8One(cps[i])])
+
 =============================================================================
